@@ -88,6 +88,7 @@ type Obligation struct {
 	Detail  string
 	Extra   []string // extra assumptions (known-finding exclusion)
 	PlainGoal string // the unskolemised goal, when the goal was skolemised
+	NoPrune   bool   // second attempt: the whole context instead of the cone of influence
 	Inputs  map[string]string
 	SrcText string
 }
